@@ -148,7 +148,9 @@ class OptimResults(object):
         soln = OptimResults(x, resid, obj, jacobian, nf, nx, nruns, flag, msg, xmin_eval_num, jacmin_eval_nums)
         
         if soln_dict['diagnostic_info'] is not None:
-            soln.diagnostic_info = pd.DataFrame.from_dict(soln_dict['diagnostic_info'])
+            df = pd.DataFrame.from_dict(soln_dict['diagnostic_info'])
+            # None -> NaN, also in columns where every entry is None (pandas only converts columns that hold some numbers)
+            soln.diagnostic_info = df.where(df.notna(), np.nan)
         return soln
 
 
